@@ -21,7 +21,7 @@
 //   14 r                digest of the serialized image (value-semantics scripts)
 //   15 r                query in place
 //   16 r s              r := deserialize(serialize(s))                   (r free)
-//   18 r s              r := s.get_result()   (s a var_opt_union; r free)
+//   18 r s [type]       r := s.get_result([type])   (s a var_opt_union / hll_union / cpc_union; r free)
 //   21 r start count stride wmod mv   bulk update: item start + i*stride, weight 1 + i % wmod, for i < count
 //   20 n                arm: the n-th Item copy construction of the next operation throws
 //   99                  destroy every register; R: live_items item_slots live_bytes live_blocks flags
@@ -90,7 +90,7 @@ static void body(const Line& t, Out& o, long& retained) {
   case 13: { Obj& a = get(t.at(1)); Obj& b = get(t.at(2)); Obj& c = get(t.at(3)); b.copy_assign(c); a.copy_assign(b); retained = a.retained(); break; }
   case 15: { Obj& r = get(t.at(1)); r.query(); retained = r.retained(); break; }
   case 16: { need_free(t.at(1)); Obj& s = get(t.at(2)); { std::unique_ptr<Obj> p(s.roundtrip()); regs[(long)t.at(1)] = std::move(p); } retained = get(t.at(1)).retained(); break; }
-  case 18: { need_free(t.at(1)); Obj& s = get(t.at(2)); { std::unique_ptr<Obj> p(s.result()); regs[(long)t.at(1)] = std::move(p); } retained = get(t.at(1)).retained(); break; }
+  case 18: { need_free(t.at(1)); Obj& s = get(t.at(2)); { std::unique_ptr<Obj> p(s.result(t.size() > 3 ? (long)t.at(3) : 0)); regs[(long)t.at(1)] = std::move(p); } retained = get(t.at(1)).retained(); break; }
   case 21: { Obj& s = get(t.at(1)); const int64_t start = (int64_t)t.at(2), n = (int64_t)t.at(3), stride = (int64_t)t.at(4), wmod = (int64_t)t.at(5);
     Out scratch;   // hashes of bulk updates are not reported
     for (int64_t i = 0; i < n; ++i) { scratch.clear(); s.update(start + i * stride, 1 + (wmod > 0 ? i % wmod : 0), t.at(6) != 0, scratch); }
